@@ -1038,6 +1038,9 @@ class ExprMixin:
             return self.get_attr(val, "value")
         if val.ty is TBool:
             return SV(TStr, z3.If(val.t, z3.StringVal("True"), z3.StringVal("False")))
+        if isinstance(val.ty, TOpt) and val.ty.inner in (TStr, TInt, TBool):
+            inner = self.to_str(SV(val.ty.inner, val.ty.get(val.t)))
+            return SV(TStr, z3.If(val.ty.is_none(val.t), z3.StringVal("None"), inner.t))
         return self.ctx.fresh(TStr, "str")
 
     def ev_Await(self, node):
